@@ -146,16 +146,21 @@ def run_case(case):
             m_last = t
     m_queue = []             # expected contents of stack.txPkts (identity)
     npkt = 0
-    latest = pkt(npkt)
+    late = bool(case.get("late")) and clsname == "Exchange"
+    latest = None if late else pkt(npkt)
     try:
         if clsname == "Exchanger":
             exch.start(tx=latest)
         else:
             exch.start()
-            exch.send(latest)
+            if not late:       # (late: the exchange is started with nothing to send yet; its first message comes with a later step)
+                exch.send(latest)
     except Exception as ex:
         return [("start-%s@%s" % (type(ex).__name__, _where(ex)), "%s start/send raised %r" % (clsname, ex))], info
-    m_queue.append(latest)
+    if not late:
+        m_queue.append(latest)
+    else:
+        info["late"] = True
     m_done = False
 
     def compare(stepno, what):
@@ -214,9 +219,10 @@ def run_case(case):
             m_done = True
             info["failed"] = True
         elif m_redo > 0 and t >= m_last + m_redo:
-            m_last = t
-            m_queue.append(latest)
-            info["redos"] += 1
+            m_last = t                    # the redo interval restarts whether or not there is a message yet
+            if latest is not None:
+                m_queue.append(latest)
+                info["redos"] += 1
         if not compare(i, "advance %r + process" % (k * STEP) if kind == "a" else "process again"):
             break
     return fails, info
@@ -266,11 +272,11 @@ def work(shard, seed, tier):
     n = 1200 if tier == "quick" else 8000
     strat = st.tuples(st.sampled_from(["Exchanger", "Exchanger", "Exchange"]), st.sampled_from(TIMEOUTS),
                       st.sampled_from(REDOS), st.sampled_from(STARTS), _steps_strategy(),
-                      st.sampled_from([0, 0, 1, 3, 4, 8, 12, 20]))
+                      st.sampled_from([0, 0, 1, 3, 4, 8, 12, 20]), st.sampled_from([False, False, True]))
 
     def to_case(v):
         return {"cls": v[0], "timeout": v[1], "redo": v[2], "start": v[3], "steps": [list(STEP_TABLE[c]) for c in v[4]],
-                "delay": v[5]}
+                "delay": v[5], "late": v[6]}
 
     def execute(v):
         case = to_case(v)
@@ -286,6 +292,8 @@ def work(shard, seed, tier):
             classes.append("redo-after-new-message")
         if info.get("transmits"):
             classes.append("latest-message-through-transmit")
+        if info.get("late"):
+            classes.append("first-message-after-start")
         return Outcome(fails, nontrivial=info["redos"] >= 2, classes=classes, key=case, sample=case)
 
     campaign(acc, strat, execute, n, seed * 1000 + shard["i"], to_case=to_case,
